@@ -19,7 +19,7 @@ from icalendar.alarms import Alarms, IncompleteAlarmInformation
 from icalendar.timezone import tzp
 
 UTC = timezone.utc
-STARTS = ("absent", "date", "floating", "utc", "zoned-dst", "zoned", "zoned-dateutil", "fixed-offset")
+STARTS = ("absent", "date", "floating", "utc", "zoned-dst", "zoned", "zoned-dateutil", "fixed-offset", "date-subclass", "utc-subclass")
 ENDS = ("absent", "explicit", "dur-days", "dur-time", "dur-zero")
 TRIGGERS = ("absent", "PT0S", "-PT15M", "PT5H", "-P1D", "P1D", "abs-utc", "abs-zoned", "-P7D", "P14D", "-PT1H0M22S")
 RELATED = (None, "START", "END", "end", "Start")  # unquoted parameter values are case-insensitive
@@ -36,6 +36,12 @@ def start_value(kind):
         return None
     if kind == "date":
         return date(2024, 3, 30)
+    if kind == "date-subclass":  # instances of user subclasses of date / datetime (mc/userkinds.py)
+        from mc.userkinds import Day
+        return Day(2024, 3, 30)
+    if kind == "utc-subclass":
+        from mc.userkinds import Stamp
+        return Stamp(2024, 3, 30, 14, 0, tzinfo=UTC)
     if kind == "floating":
         return datetime(2024, 3, 30, 14, 0)
     if kind == "utc":
@@ -223,7 +229,7 @@ REDUCED = [(t, r, rd) for t in ("-PT15M", "PT5H", "-P1D", "abs-utc") for r in (N
 
 
 def run(ctx):
-    ctx.rule = ("E-enum: {VEVENT,VTODO} x 8 start kinds x 5 end kinds (incl. a zero DURATION) x all single alarms TRIGGER(11) x RELATED(5) x "
+    ctx.rule = ("E-enum: {VEVENT,VTODO} x 10 start kinds (incl. instances of user subclasses of date / datetime) x 5 end kinds (incl. a zero DURATION) x all single alarms TRIGGER(11) x RELATED(5) x "
                 "(REPEAT,DURATION)(10, incl. a zero DURATION, whole weeks, seconds) x {API-built, parsed, parsed with explicit plus signs on durations, parsed with whole weeks in week form} x {zoneinfo, pytz}; plus all ordered pairs over a reduced menu of "
                 f"{len(REDUCED)} alarm shapes" + ("" if ctx.quick else " and all triples over 8 shapes") +
                 "; E-hist: the alarms of a component handed to the Alarms object after the parent, before it, or partly with it (add_alarm / add_component alternating): same times. non-trivial = at least one alarm has a TRIGGER.")
